@@ -460,7 +460,7 @@ func runPipeline(c *simrun.Ctx) *simrun.Violation {
 	nProd := 1 + t.Draw("producers", 3)
 	nCons := 1 + t.Draw("consumers", maxCons)
 	nHand := 1 + t.Draw("handlers", maxHandlers)
-	cfg := simval.GenCfg{MaxDepth: 1 + t.Draw("maxdepth", 2), MaxFields: 2 + t.Draw("maxfields", 6), MaxMapEntries: 2 + t.Draw("maxentries", 4), MaxListLen: 1 + t.Draw("maxlist", 3), Unknown: true, AnyTargets: anyTargets()}
+	cfg := simval.GenCfg{MaxDepth: 1 + t.Draw("maxdepth", 2), MaxFields: 2 + t.Draw("maxfields", 6), MaxMapEntries: 2 + t.Draw("maxentries", 4), MaxListLen: 1 + t.Draw("maxlist", 3), Unknown: true, AnyTargets: anyTargets(), InvalidUTF8: t.Chance("allow-invalid-utf8", 1, 4)}
 
 	// ---- plan (all draws happen here, before any task runs)
 	plans := make([][]*framePlan, nProd)
